@@ -19,7 +19,12 @@ fn main() {
                 .position(|a| a == "--out")
                 .and_then(|i| args.get(i + 1))
                 .map(PathBuf::from);
-            let code = vh::checks::run(&prop, &tier, out.as_deref());
+            let code = std::thread::Builder::new()
+                .stack_size(vh::common::WORKER_STACK)
+                .spawn(move || vh::checks::run(&prop, &tier, out.as_deref()))
+                .expect("spawn")
+                .join()
+                .unwrap_or(2);
             std::process::exit(code);
         }
         "child" => {
